@@ -191,9 +191,11 @@ Print Assumptions c18_headers_block_roundtrip.
 
 Example c18_headers_block_example :
   let rs := [RIndexed 2; RIndexed 6; RIndexed 4; RLitNew KIncr true [120; 45; 97] false [49]] in
-  exists f n st, read_frame fs_new (ser_frame (AHeaders 1 true true None (flat_map ser_repr rs) None) ++ [0;0;0]) = ROk f n st /\
-                 f_body f = BMeta None [mkF N_method [71;69;84] false; mkF N_scheme [104;116;116;112] false; mkF N_path [47] false; mkF [120;45;97] [49] false] false.
-Proof. cbn zeta. do 3 eexists. split; vm_compute; reflexivity. Qed.
+  match read_frame fs_new (ser_frame (AHeaders 1 true true None (flat_map ser_repr rs) None) ++ [0;0;0]) with
+  | ROk f _ _ => f_body f = BMeta None [mkF N_method [71;69;84] false; mkF N_scheme [104;116;116;112] false; mkF N_path [47] false; mkF [120;45;97] [49] false] false
+  | _ => False
+  end.
+Proof. vm_compute. reflexivity. Qed.
 
 (* ------------------------------------------------------------------ header blocks over several frames; the sender *)
 From MV Require Import Proofs.HpackStable Proofs.H2Send Proofs.H2FrameMulti.
@@ -289,7 +291,10 @@ Example c18_fragmentation_example :
   map (fun f => (len (fst f), snd f)) (split_block (repeat 7 (N.to_nat 32768)) 16384) = [(16384, false); (16384, true)] /\
   map (fun f => (len (fst f), snd f)) (split_block_gen false (N.to_nat 40000) (repeat 7 (N.to_nat 32768)) 16384) = [(16384, false); (16384, false)] /\
   (let rs := [RIndexed 2; RIndexed 6; RIndexed 4; RLitNew KIncr false [120; 45; 97] false [49; 50; 51; 52; 53]] in
-   exists f n st, read_frame fs_new (ser_fragments 1 true (split_block (flat_map ser_repr rs) 4) ++ [0; 0]) = ROk f n st /\
-                  f_body f = BMeta None [mkF N_method [71;69;84] false; mkF N_scheme [104;116;116;112] false; mkF N_path [47] false; mkF [120;45;97] [49;50;51;52;53] false] false /\
-                  n = len (ser_fragments 1 true (split_block (flat_map ser_repr rs) 4))).
-Proof. cbn zeta. split; [vm_compute; reflexivity|]. split; [vm_compute; reflexivity|]. do 3 eexists. repeat split; vm_compute; reflexivity. Qed.
+   match read_frame fs_new (ser_fragments 1 true (split_block (flat_map ser_repr rs) 4) ++ [0; 0]) with
+   | ROk f n _ =>
+       f_body f = BMeta None [mkF N_method [71;69;84] false; mkF N_scheme [104;116;116;112] false; mkF N_path [47] false; mkF [120;45;97] [49;50;51;52;53] false] false /\
+       n = len (ser_fragments 1 true (split_block (flat_map ser_repr rs) 4))
+   | _ => False
+   end).
+Proof. cbn zeta. split; [vm_compute; reflexivity|]. split; [vm_compute; reflexivity|]. vm_compute. split; reflexivity. Qed.
